@@ -3,6 +3,7 @@
 package main
 
 import (
+	"cosmossdk.io/math"
 	"encoding/hex"
 	"fmt"
 	"runtime/debug"
@@ -66,8 +67,8 @@ type Xfer struct {
 }
 
 type CtlOut struct {
-	Run  bool   `json:"run"`
-	Ack  string `json:"ack"`
+	Run   bool   `json:"run"`
+	Ack   string `json:"ack"`
 	Post  *St    `json:"post,omitempty"`
 	Req   []Req  `json:"req"`
 	Xfers []Xfer `json:"xfers"`
@@ -232,7 +233,7 @@ func (r *Runner) observe(evs []abci.Event) (reqs []Req, xfers []Xfer, types []st
 				den = "?" + d.BurnToken
 			}
 			reqs = append(reqs, Req{Route: "CCTP", WithCaller: len(d.DestinationCaller) != 0,
-				From: w.nameOfAddr(d.Depositor), Amt: toInt(d.Amount, "cctp amount"), Denom: den,
+				From: w.nameOfAddr(d.Depositor), Amt: capInt(d.Amount), Denom: den,
 				Dom: int64(d.DestinationDomain), Mint: w.nameOfBytes(d.MintRecipient), Caller: w.nameOfBytes(d.DestinationCaller),
 				Tok: "NONE", Rcp: "NONE", Hook: "NONE", Meta: "NONE", To: "NONE"})
 		case "hyperlane.warp.v1.EventSendRemoteTransfer":
@@ -246,7 +247,7 @@ func (r *Runner) observe(evs []abci.Event) (reqs []Req, xfers []Xfer, types []st
 				Tok: w.nameOfBytes(d.TokenId.Bytes()), Rcp: w.nameOfBytes(d.Recipient.Bytes()),
 				Mint: "NONE", Caller: "NONE", Hook: "?", Meta: "?", To: "NONE", Gas: -1, MaxFee: -1}
 			if err == nil && len(coins) == 1 {
-				rq.Amt = toInt(coins[0].Amount, "warp amount")
+				rq.Amt = capInt(coins[0].Amount)
 				rq.Denom = coins[0].Denom
 			}
 			reqs = append(reqs, rq)
@@ -270,7 +271,7 @@ func (r *Runner) observe(evs []abci.Event) (reqs []Req, xfers []Xfer, types []st
 				continue
 			}
 			for _, c := range coins {
-				xfers = append(xfers, Xfer{From: w.nameOfAddr(from), To: w.nameOfAddr(to), Denom: c.Denom, Amt: toInt(c.Amount, "xfer")})
+				xfers = append(xfers, Xfer{From: w.nameOfAddr(from), To: w.nameOfAddr(to), Denom: c.Denom, Amt: capInt(c.Amount)})
 			}
 		}
 	}
@@ -376,6 +377,10 @@ func (r *Runner) doRecv(bctx sdk.Context, ln *Line) {
 		ln.Obs.Ctl["nopt"] = CtlOut{Run: true, Ack: res.Ack, Req: rq, Xfers: xf}
 	}
 
+	var bigPre map[string]math.Int
+	if in.AmtC == "DIGITS" {
+		bigPre = r.bigBalances(bctx, in)
+	}
 	var diff *DiffObs
 	if diffObs {
 		d := r.diffRecv(bctx, p)
@@ -402,6 +407,22 @@ func (r *Runner) doRecv(bctx sdk.Context, ln *Line) {
 		}
 		ln.Obs.X["diff"] = *diff
 	}
+	if bigPre != nil {
+		if ln.Obs.X == nil {
+			ln.Obs.X = map[string]any{}
+		}
+		post := r.bigBalances(bctx, in)
+		dec := func(a string) []int64 { return digitsOf(bigPre[a].Sub(post[a])) }
+		inc := func(a string) []int64 { return digitsOf(post[a].Sub(bigPre[a])) }
+		esc := "esc0"
+		if in.Chan == 1 {
+			esc = "esc1"
+		}
+		ln.Obs.X["big"] = map[string]any{
+			"esc": dec(esc), "orb": digitsOf(post["orb"]), "dust": inc("dust"),
+			"F1": inc("F1"), "F2": inc("F2"), "U": inc("U"),
+		}
+	}
 	if parseObs && in.Dn != "RAWDATA" {
 		if ln.Obs.X == nil {
 			ln.Obs.X = map[string]any{}
@@ -423,6 +444,15 @@ func (r *Runner) doRecv(bctx sdk.Context, ln *Line) {
 
 // clearPauses empties the pause sets on the (control) branch through the keeper's own setters.
 // It reports false when a setter refuses (the control run is then not comparable and is skipped).
+// bigBalances reads the balances of the big-amount denom (exact, arbitrary precision).
+func (r *Runner) bigBalances(ctx sdk.Context, in *Input) map[string]math.Int {
+	out := map[string]math.Int{}
+	for _, a := range []string{"esc0", "esc1", "orb", "dust", "F1", "F2", "U"} {
+		out[a] = r.w.app.BankKeeper.GetBalance(ctx, r.w.acct[a], in.Base).Amount
+	}
+	return out
+}
+
 func (r *Runner) clearPauses(ctx sdk.Context) (ok bool) {
 	defer func() {
 		if rec := recover(); rec != nil {
